@@ -7,8 +7,9 @@ then store it as /verif/seeded/<PID>-<k>/ {patch.diff, demo, meta.json}.
 usage: confirm_seed.py PID[:k] ...   (runs in a scratch worktree outside /repo and /verif)"""
 import json, os, re, shutil, subprocess, sys, time
 
-WT = "/tmp/scratch/vwt"
-TGT = "/tmp/scratch/vwt-target"
+SLOT = os.environ.get("CONFIRM_SLOT", "")
+WT = "/tmp/scratch/vwt" + SLOT
+TGT = "/tmp/scratch/vwt-target" + SLOT
 ENV = dict(os.environ, CARGO_TARGET_DIR=TGT, CARGO_NET_OFFLINE="true")
 
 
